@@ -31,6 +31,43 @@ META = dict(
               "checker-verdict comparison, limit probes and real-state invariants",
 )
 
+TABLE_CFG = """SPECIFICATION Spec
+CONSTANTS
+  CRs = {1, 2, 3}
+  Props = {1, 2}
+  Owners = {1, 2}
+  Voters = {1, 2}
+  AgreeCount = 2
+  PropCRVote = 1
+  PropPubVote = 1
+  RejectThreshold = 2
+  MaxTracking = 4
+  StageAmounts = {20, 80}
+  UsedAtStart = {0, 10}
+  UsedNow = {0, 10, 12, 70, 76}
+  AskedInBlock = {0, 2, 5}
+  Totals = {3, 4, 5, 6, 7, 8, 9}
+VIEW view
+INVARIANT RegistrationWithinFunds
+ACTION_CONSTRAINT Emit
+CHECK_DEADLOCK FALSE
+"""
+
+
+def budget_table(chk, s, cfgp):
+    """Decision table of the two budget limits (BudgetTable.tla) on the real CRCProposal checker."""
+    r = vf.tlc("Gov", "BudgetTable", "budget-table.cfg", cfg_text=TABLE_CFG, workers=1, timeout=600,
+               jvm=("-Xmx2g", "-XX:ParallelGCThreads=2"))
+    vf.tlc_ok(r, "budget decision table")
+    chk.add_tlc(r, "budget limits decision table (BudgetTable.tla)")
+    cases, st = vf.behaviours(r, dedupe_prefixes=False)
+    path = os.path.join(vf.scratch(), "budget-cases.jsonl")
+    vf.write_json_lines(path, cases)
+    recs, _ = vf.run_driver(s.binary, ["budget", cfgp, path], timeout=600)
+    chk.absorb(G.verdict_first(chk, recs), "budget limits decision table: %d cases" % len(cases))
+    return cases
+
+
 BUDGET_KINDS = ["Proposal", "Review", "Reject", "Tracking", "Withdraw", "RealWithdraw", "Close", "Approp"]
 
 
@@ -43,26 +80,34 @@ def run(chk):
         s.job("exhaustive duty: registration to withdrawal, 4 blocks", "duty", ["Proposal", "Review", "Withdraw", "Tracking"], 4,
               workers=2, rolls=0, timeout=1700)
         s.job("duty: registration and reviews", "duty", ["Proposal", "Review", "Reject", "Approp", "Impeach"], 3, emit="all",
-              limit=4000, rolls=1)
+              limit=4000, rolls=0)
         s.job("agreed: tracking, withdrawal, close", "agreed", ["Tracking", "Withdraw", "RealWithdraw", "Close", "Review", "Reject"], 3,
-              emit="all", limit=4000, rolls=1)
-        s.job("simulation duty, 30 steps", "duty", BUDGET_KINDS + ["Impeach", "Claim"], 30, emit="last", simulate="num=500", rolls=2,
+              emit="all", limit=4000, rolls=0)
+        s.job("simulation duty, 30 steps", "duty", BUDGET_KINDS + ["Impeach", "Claim"], 30, emit="last", simulate="num=500", rolls=0,
               timeout=1700)
-        s.job("simulation election, 30 steps", "election", G.ALL_KINDS, 30, emit="last", simulate="num=300", rolls=2, timeout=1700)
+        s.job("simulation election, 30 steps", "election", G.ALL_KINDS, 30, emit="last", simulate="num=300", rolls=0, timeout=1700)
     else:
         s.job("agreed: tracking, withdrawal, close", "agreed", ["Tracking", "Withdraw", "RealWithdraw", "Close", "Review"], 3,
               emit="all", limit=400, rolls=0)
         s.job("duty: registration and reviews", "duty", ["Proposal", "Review", "Reject", "Approp"], 3, emit="all", limit=300, rolls=0)
-        s.job("simulation duty, 12 steps", "duty", BUDGET_KINDS, 12, emit="last", simulate="num=40", rolls=1)
+        s.job("simulation duty, 12 steps", "duty", BUDGET_KINDS, 12, emit="last", simulate="num=40", rolls=0)
     s.run_jobs(parallel=4 if not thorough else 8)
     cap = 500 if thorough else 40
     for i, (label, behs) in enumerate(s.behs):
         if label.startswith("simulation") and len(behs) > cap:
             s.rng.shuffle(behs)
             s.behs[i] = (label, sorted(behs[:cap], key=lambda b: json.dumps(b, sort_keys=True)))
-    cfgp, allb = s.replay(sweep=1)
+    cfgp, allb = s.replay(sweep=0)      # rollbacks are C22's subject
     for b in allb[:: max(1, len(allb) // 3)][:3]:
         chk.sample([dict(act=x["act"], args=x["args"]) for x in b][:8])
+
+    cases = budget_table(chk, s, cfgp)
+    bad = json.loads(json.dumps(next(c for c in cases if c[0]["exp"])))
+    bad[0]["exp"] = False
+    p3 = os.path.join(vf.scratch(), "budget-bad.jsonl")
+    vf.write_json_lines(p3, [bad])
+    recs, _ = vf.run_driver(s.binary, ["budget", cfgp, p3], timeout=300)
+    chk.selftest("budget table: one verdict flipped", G.rejected(recs))
 
     # binding self-tests: a corrupted verdict table must be contradicted by the real checkers
     wb = G.pick(allb, lambda b: any(a > 0 for a in b[-1]["vd"]["avail"]), s.rng)
